@@ -1673,4 +1673,35 @@ theorem pinv_bulkPathItems (es : List Entry) (h : ∀ e ∈ es, '{' ∉ e.route 
   · rw [tparams_itemRoute _ _ hr hi] at hx
     rw [declared_bulkItem]; exact hx
 
+/-! ### `upsert_routes` layouts and the primary-key choice of `gen_routes` -/
+
+/-- whatever way the entries are spread over routes files and upsert batches, `openapi_bulk` sees the routes of all of
+    them, in file order -/
+theorem routes_of_layout (app : Str) (files : List (List Entry)) :
+    files.flatMap (fun bs => visibleRoutes (bs.map (genRoutes app))) = files.flatten.flatMap (genRoutes app) := by
+  induction files with
+  | nil => rfl
+  | cons bs rest ih =>
+    rw [List.flatMap_cons, ih, List.flatten_cons, List.flatMap_append]
+    simp only [visibleRoutes, List.flatMap_def]
+
+/-- is this the `[PK]` column? -/
+def isPkDoc (q : Str × Option Str) : Bool :=
+  match q.2 with
+  | some d => startsWith d c!"[PK]"
+  | none => false
+
+theorem pickPkGo_spec (ps : List (Str × Option Str)) (dflt : Str) :
+    pickPkGo ps dflt = .ok (match ps.find? isPkDoc with | some q => q.1 | none => dflt) := by
+  induction ps with
+  | nil => rfl
+  | cons q qs ih =>
+    obtain ⟨k, d⟩ := q
+    cases d with
+    | none => simp only [pickPkGo, ih, List.find?_cons, isPkDoc]
+    | some doc =>
+      by_cases h : startsWith doc c!"[PK]" = true
+      · simp only [pickPkGo, h, ↓reduceIte, List.find?_cons, isPkDoc]
+      · simp only [pickPkGo, h, Bool.false_eq_true, ↓reduceIte, ih, List.find?_cons, isPkDoc]
+
 end OpenApi
